@@ -22,6 +22,11 @@ package main
 //                                               didOpen / didChange (full text) / didSave (with or without text) / didClose
 //      phover:<hex rel>:l:c  pdocsym:<hex rel>  requests on such a path
 //      alive                                    a fence round trip: `alive=ok` when the server answered it
+//      config:<hex JSON settings>               ONE workspace/didChangeConfiguration notification, params {"settings": <that JSON>}
+//                                               (e.g. {"luahelper":{"base":{"ReferenceIncudeDefine":false}}}); no answer item
+//   K:<k>:<hex JSON settings>            the same notification as an ITEM: sent right before step number k (0 = before the first
+//                                        step; k >= number of steps: never). For legs whose model side parses the S:
+//                                        steps with ocaml/srv_case.inc.ml (unknown steps are rejected there, other items ignored)
 //      rchange:i:sl:sc:el:ec:<hex text>[:<rangeLength>]   incremental didChange (one content change WITH a range; the harness's
 //                                               copy of the file text is NOT updated: use it last or follow with change:)
 //      nchange:i:<rangeLength>:<hex text>       didChange whose content change has NO range but carries `rangeLength`
@@ -245,6 +250,7 @@ func runScript(line string) string {
 		opts[n] = true
 	}
 	var steps []string
+	cfgAt := map[int][]json.RawMessage{} // K items: settings notifications by the step they precede
 	var links [][2]string
 	var dirs []string
 	root, err := ioutil.TempDir("", "lhsrv")
@@ -278,6 +284,11 @@ func runScript(line string) string {
 			}
 		case strings.HasPrefix(it, "X:dir:"):
 			dirs = append(dirs, filepath.Join(root, string(unhex(it[6:]))))
+		case strings.HasPrefix(it, "K:"):
+			p := strings.SplitN(it[2:], ":", 2)
+			if k, err := strconv.Atoi(p[0]); err == nil && len(p) == 2 {
+				cfgAt[k] = append(cfgAt[k], json.RawMessage(unhex(p[1])))
+			}
 		}
 		// every other item (G: D: U: ... = data some leg carries for its MODEL side) is ignored here
 	}
@@ -314,10 +325,21 @@ func runScript(line string) string {
 	atoi := func(x string) int { v, _ := strconv.Atoi(x); return v }
 	pabs := func(h string) string { return filepath.Join(root, string(unhex(h))) }
 	puri := func(h string) string { return "file://" + root + "/" + string(unhex(h)) }
-	for _, st := range steps {
+	sendCfg := func(raw json.RawMessage) {
+		if !json.Valid(raw) {
+			raw = json.RawMessage("{}")
+		}
+		s.notify("workspace/didChangeConfiguration", map[string]interface{}{"settings": raw})
+	}
+	for si, st := range steps {
+		for _, raw := range cfgAt[si] {
+			sendCfg(raw)
+		}
 		a := strings.Split(st, ":")
 		op := a[0]
 		switch op {
+		case "config":
+			sendCfg(json.RawMessage(unhex(a[1])))
 		case "open":
 			i := atoi(a[1])
 			s.notify("textDocument/didOpen", map[string]interface{}{"textDocument": map[string]interface{}{
